@@ -5,14 +5,32 @@ from __future__ import annotations
 from . import corelib, gen
 from . import schema as S
 
-MODES = [("impl", {}), ("k1", {"fixK1": True}), ("k2", {"fixK2": True}), ("k3", {"fixK3": True}), ("spec", {"fixK1": True, "fixK2": True, "fixK3": True})]
+# fixK3 is the behaviour of /repo since fix F17 (NamedTuple defaults apply only to missing items); the Lean default is true
+MODES = [("impl", {}), ("k1", {"fixK1": True}), ("k2", {"fixK2": True}), ("spec", {"fixK1": True, "fixK2": True})]
 
 
-def run_decode(ctx, cases, judge):
-    """cases: (ty, data, entry, origin) ; judge(ctx, case, real, models, reg, extra)"""
+def fixed_corpus(ctx, key="input"):
+    """witnesses of repaired findings of this property (those shaped like a decode / encode case), grouped by
+    wrapper mode: {annot: [(ty, data, entry, "corpus")]}; they run first on every run"""
+    out = {}
+    n = 0
+    for f in ctx.known:
+        w = f.get("witness") or {}
+        if f.get("status") == "fixed" and isinstance(w, dict) and "ty" in w and key in w:
+            out.setdefault(w.get("annot", False), []).append((w["ty"], w[key], w.get("entry", "codec"), "corpus"))
+            n += 1
+    if n:
+        ctx.bump("corpus(fixed findings)", n)
+    return out
+
+
+def run_decode(ctx, cases, judge, annot=False):
+    """cases: (ty, data, entry, origin) ; judge(ctx, case, real, models, reg, extra).
+    `annot`: wrap every annotation in Annotated / NewType / TypeAliasType (schema.realize)"""
     lines, metas = [], []
     for ty, data, entry, origin in cases:
         reg = S.Reg(mixin=(entry == "mixin"))
+        reg.annot = annot
         try:
             try:
                 S.realize(ty, reg)
@@ -38,6 +56,9 @@ def run_decode(ctx, cases, judge):
             if any(m.get("inconclusive") for m in models.values()):
                 models = None
         case = {"ty": ty, "input": data, "entry": entry}
+        if annot:
+            case["annot"] = annot
+            ctx.bump(f"wrapper cases:{annot}")
         outcome = "ok" if "ok" in out else ("build_error" if "build_error" in out else "err:" + out["err"]["kind"])
         ctx.count(case, not isinstance(ty, str), kind=f"outcome:{outcome}")
         ctx.bump(f"origin:{origin}")
@@ -55,7 +76,7 @@ def classify(models, real, reg):
     import json
 
     spec = json.dumps(models["spec"], sort_keys=True)
-    info["explained_by"] = [n for n in ("k1", "k2", "k3") if json.dumps(models[n], sort_keys=True) == spec and not agree["spec"]]
+    info["explained_by"] = [n for n in ("k1", "k2") if json.dumps(models[n], sort_keys=True) == spec and not agree["spec"]]
     return info
 
 
